@@ -140,14 +140,21 @@ class Gen:
                 t = self.rand_ty(n, nonopt_below=c, allow_obj=False)
                 cd.attrs.append((attr_id, t))
                 attr_id += 1
-        # __init__: one parameter per attribute (sometimes a constant instead)
+        # __init__: one parameter per attribute (sometimes a constant instead); all signatures first,
+        # then the constants (which may construct instances of any class)
+        plans = []
         for c, cd in enumerate(classes):
+            plan = []
             for f, t in self.h.all_attrs(c):
                 if r.random() < 0.8:
                     cd.init_params.append(t)
-                    cd.init_assigns.append((f, ("var", len(cd.init_params) - 1)))
+                    plan.append((f, t, len(cd.init_params) - 1))
                 else:
-                    cd.init_assigns.append((f, self.const_of(t, c)))
+                    plan.append((f, t, None))
+            plans.append(plan)
+        for c, cd in enumerate(classes):
+            for f, t, i in plans[c]:
+                cd.init_assigns.append((f, ("var", i) if i is not None else self.const_of(t, c)))
         # methods
         for c, cd in enumerate(classes):
             inherited = dict(self.h.all_meths(cd.base)) if cd.base is not None else {}
@@ -182,9 +189,9 @@ class Gen:
 
     def const_of(self, t, below):
         """closed expression of type ≤ t built from literals and constructors of classes < below"""
-        return self.closed(t, below, 2)
+        return self.closed(t, below, 2, persist=True)
 
-    def closed(self, t, below, depth):
+    def closed(self, t, below, depth, persist=False):
         r = self.r
         atoms = list(t)
         r.shuffle(atoms)
@@ -201,7 +208,9 @@ class Gen:
                 continue
             k = r.choice(cands) if depth > 0 else min(cands)
             cd = self.h.classes[k]
-            return ("new", k, [self.closed(p, k if N not in p else None, depth - 1) for p in cd.init_params])
+            outer = below if persist else None
+            return ("new", k, [self.closed(p, (k if outer is None else min(k, outer)) if N not in p else outer,
+                                           depth - 1, persist) for p in cd.init_params])
         if N in atoms:
             return ("noneLit",)
         raise RuntimeError(f"cannot build a closed value of {t}")
@@ -233,7 +242,7 @@ class Gen:
             e = self.expr(t, env, 2)
             stmts.append(("decl", x, e))
             env[x] = t
-        self.counters = []
+        self.protected = set()
         budget = r.randint(1, 2) if simple else r.randint(3, 7)
         body, env, live = self.block(env, 0, budget, top=True)
         stmts += body
@@ -529,7 +538,8 @@ class Gen:
                     return out, env, False
                 # after the join: narrowing is kept only if one side does not fall through
                 if tl and el:
-                    env = self.reset_assigned(env, tb + eb)
+                    # both fall through: the checker joins the branch types (simplified union)
+                    env = {x: self.h.simp(list(te_.get(x, env[x])) + list(ee_.get(x, env[x]))) for x in env}
                 elif tl:
                     env = self.reset_assigned(te_, tb + eb) if et is not None else env
                 else:
@@ -540,7 +550,7 @@ class Gen:
                 env = self.reset_assigned(env, out[-1:])
             elif k < 0.50:
                 # reassignment of a local, narrowing it to the assigned type
-                xs = [x for x in env if not (self.self_cls is not None and x == 0)]
+                xs = [x for x in env if not (self.self_cls is not None and x == 0) and x not in self.protected]
                 if not xs:
                     continue
                 x = r.choice(xs)
@@ -557,7 +567,10 @@ class Gen:
                 if not xs:
                     continue
                 x = r.choice(xs)
-                f, tf = r.choice(self.h.all_attrs(env[x][0][1]))
+                owner = self.self_cls if (self.self_cls is not None and x == 0) else env[x][0][1]
+                if not self.h.all_attrs(owner):
+                    continue
+                f, tf = r.choice(self.h.all_attrs(owner))
                 if (x, f) in self.read:
                     continue
                 self.written.add((x, f))
@@ -605,6 +618,7 @@ class Gen:
         r = self.r
         i, d1 = self.new_local(INT, ("intLit", 0))
         lim, d2 = self.new_local(INT, ("intLit", r.choice([1, 2, 3])))
+        self.protected |= {i, lim}
         env = dict(env)
         env[i] = INT
         env[lim] = INT
